@@ -15,7 +15,7 @@ from .execu import Exec, Frame, parse_annotation, loop_fingerprint, assigned_nam
 from .bufs import Buf, BufRef, BufView, BufCopy, FIELD
 from .flat import FlatView
 
-BUILTINS = {'slice', 'transpose', 'split', 'full_like', 'solve', 'arange', 'atleast_1d', 'len', 'range', 'enumerate', 'min', 'max', 'abs', 'int', 'float', 'bool', 'empty', 'zeros', 'ones',
+BUILTINS = {'array', 'nonzero', 'slice', 'transpose', 'split', 'full_like', 'solve', 'arange', 'atleast_1d', 'len', 'range', 'enumerate', 'min', 'max', 'abs', 'int', 'float', 'bool', 'empty', 'zeros', 'ones',
             'empty_like', 'zeros_like', 'sum', 'tuple', 'list', 'isinstance', 'print', 'zip', 'floor', 'sqrt',
             'exp', 'tanh', 'cosh', 'cos', 'sin', 'RuntimeError', 'ValueError', 'AssertionError', 'NotImplementedError',
             'str', 'reversed', 'sorted', 'all', 'any', 'prod', 'pi', 'mod', 'fabs', 'log', 'dict', 'set'}
@@ -85,6 +85,31 @@ class Engine(Exec):
                 return r
         if name.endswith('.warn') or name == 'warn':
             return None
+        if name == 'split' and args and self.is_arr(args[0]) and args[0].rank == 1 and self.is_arr(args[1]):
+            # np.split(x, array of cut points): a list of symbolic length; piece i is x[cut(i-1):cut(i)] (cut(-1) = 0, the
+            # last piece runs to the end)
+            x, cuts = args[0], args[1]
+            if cuts.rank != 1:
+                raise OutOfReach('np.split with a rank>1 array of cut points')
+            n = binop('Add', cuts.shape[0], 1)
+
+            def piece(s_, i, x=x, cuts=cuts, n=n, node=node, fr=fr):
+                cf = self.elem_fn(s_, cuts)
+                if is_cint(i) and i == 0:
+                    lo = 0
+                else:
+                    lo = simp(cf((binop('Sub', i, 1),)))
+                    lo0 = z3.simplify(z3.substitute(ZI(lo), (ZI(i), z3.IntVal(0)))) if is_sym(i) else None
+                    if not (lo0 is not None and z3.is_int_value(lo0) and lo0.as_long() == 0):
+                        lo = V.ite(compare('Eq', i, 0), 0, lo) if is_sym(i) else lo
+                hi = V.ite(compare('Eq', i, binop('Sub', n, 1)), x.shape[0], simp(cf((i,))))
+                return lo, hi
+            def elem(s_, i, known_not_last=False, x=x, node=node, fr=fr):
+                lo, hi = piece(s_, i)
+                if known_not_last:
+                    hi = simp(self.elem_fn(s_, cuts)((i,)))
+                return self.subscript(s_, fr, x, slice(lo, hi), node)
+            return V.SymList(n, elem)
         if name == 'split' and args and self.is_arr(args[0]) and args[0].rank == 1:
             x, cuts = args[0], args[1]
             if not (isinstance(cuts, (list, tuple)) and len(cuts) == 1):
@@ -105,6 +130,10 @@ class Engine(Exec):
             cid = self.comm_consts(st, args[0])[0]
             PEER = V.uf('peer_send', INT, INT, z3.ArraySort(INT, REAL))
             return SpecArr(PEER(z3.IntVal(cid), ZI(args[1])), [None], REAL)
+        if name == 'array' and args and isinstance(args[0], (list, tuple)) and all(isinstance(x, Obj) or x is None for x in args[0]):
+            return V.ObjArray(args[0])
+        if name == 'nonzero' and args and isinstance(args[0], V.ObjArray) and all(isinstance(x, bool) for x in args[0]):
+            return ([k for k, x in enumerate(args[0]) if x],)
         if name == 'gfield':
             # the global field of a distributed array: an uninterpreted function of the global index (one per rank)
             G = V.uf('gfield%d' % len(args), *([INT] * len(args) + [REAL]))
@@ -385,6 +414,67 @@ class Engine(Exec):
         st.qfacts.append(QFact(1, outside, 'Alltoall: outside the receive buffer'))
         return None
 
+    def allgather_data(self, comm, send, rcv, st, fr, node):
+        """Assumed contract of MPI_Allgather with equal counts: chunk r of the receive buffer is member r's send buffer.  The
+        contract of the calling function gives the chunk length and, per member r, the lens (true block shape) through which
+        the received chunk is later read."""
+        from .flat import flat_term, prod_term
+        c = fr.contract
+        if c is None or c.allgather is None:
+            raise OutOfReach('Allgather in a function whose contract does not describe the gathered chunks')
+        cid, p, me = self.comm_consts(st, comm)
+        rph = fresh('rmember', 'int')
+        old_spec = fr.spec_only
+        fr.spec_only = True
+        tmp = st.fork()
+        tmp.env = dict(st.env)
+        tmp.env['r'] = rph
+        try:
+            chunk = self.ev_clause_val(c.allgather[0], st, fr)
+            lens_r = [self.ev_clause_val(x, tmp, fr) for x in c.allgather[1]]
+        finally:
+            fr.spec_only = old_spec
+        for v in (send, rcv):
+            if not (isinstance(v, ArrView) and v.rank == 1 and v.base.rank == 1):
+                raise OutOfReach('Allgather buffers must be contiguous rank-1 views')
+        self.safety(st, fr, 'allgather_counts', b_and(compare('Eq', send.shape[0], chunk),
+                                                      compare('Eq', rcv.shape[0], binop('Mult', p, chunk))), node)
+        self.safety(st, fr, 'allgather_distinct', send.base is not rcv.base, node)
+        R = len(lens_r)
+
+        def lens_of(r):
+            return [z3.substitute(ZI(x), (rph, ZI(r))) if is_sym(x) else x for x in lens_r]
+        # every member's block fits into a chunk
+        self.prove(st, fr, 'allgather_block_fits', smt.FForall(1, lambda r: f_imp(b_and(compare('GtE', r, 0), compare('Lt', r, p)),
+                   z3.And(*[ZI(x) >= 0 for x in lens_of(r)], ZI(prod_term(lens_of(r))) <= ZI(chunk))), 'block fits'), node)
+        base = rcv.base
+        old = st.heap[base.aid]
+        V._arr_counter[0] += 1
+        new = z3.Const('%s!ag%d' % (base.name, V._arr_counter[0]), base.sort())
+        st.heap[base.aid] = new
+        off = ZI(rcv.spec[0][1])
+        n = ZI(rcv.shape[0])
+        PEER = V.uf('peer_send', INT, INT, z3.ArraySort(INT, REAL))
+        send_heap, send_off = st.heap[send.base.aid], ZI(send.spec[0][1])
+
+        def moved(r, *i):
+            L = lens_of(r)
+            g = b_and(compare('GtE', r, 0), compare('Lt', r, p),
+                      *[b_and(compare('GtE', i[k], 0), compare('Lt', i[k], L[k])) for k in range(R)])
+            t = flat_term(L, list(i))
+            return f_imp(g, z3.Select(new, off + ZI(r) * ZI(chunk) + t) == z3.Select(PEER(z3.IntVal(cid), ZI(r)), t))
+
+        def mine(k):
+            return f_imp(b_and(compare('GtE', k, 0), compare('Lt', k, send.shape[0])),
+                         z3.Select(PEER(z3.IntVal(cid), me), k) == z3.Select(send_heap, send_off + k))
+
+        def outside(k):
+            return f_imp(V.b_or(compare('Lt', k, off), compare('GtE', k, off + n)), z3.Select(new, k) == z3.Select(old, k))
+        st.qfacts.append(QFact(1, mine, 'Allgather: my own send buffer is what member me sends'))
+        st.qfacts.append(QFact(R + 1, moved, 'Allgather: chunk r of the receive buffer = send buffer of member r'))
+        st.qfacts.append(QFact(1, outside, 'Allgather: outside the receive buffer'))
+        return None
+
     def mpi_call(self, f, args, kwargs, st, fr, node):
         """Calls on a communicator object: collectives are appended to the ghost trace with their uniform signature."""
         name, comm = f.name, f.ref
@@ -395,6 +485,10 @@ class Engine(Exec):
                 return self.comm_consts(st, comm)[2]
             if name == 'Alltoall':
                 return self.alltoall_data(comm, args[0], args[1], st, fr, node)
+            if name == 'Allgather':
+                a0 = args[0][0] if isinstance(args[0], (tuple, list)) else args[0]
+                a1 = args[1][0] if isinstance(args[1], (tuple, list)) else args[1]
+                return self.allgather_data(comm, a0, a1, st, fr, node)
         if name in self.MPI_SIG:
             sig = self.MPI_SIG[name](args, kwargs)
             sig = tuple(x.name if isinstance(x, FunVal) else x for x in sig)
@@ -1008,6 +1102,11 @@ class Engine(Exec):
             if not (isinstance(tgt, ast.Tuple) and len(tgt.elts) == 2 and isinstance(tgt.elts[0], ast.Name)):
                 raise OutOfReach('enumerate target')
             iname = tgt.elts[0].id
+            if isinstance(seq, V.SymList):
+                def bindl(s, i, seq=seq):
+                    self.assign(tgt.elts[0], i, s, fr)
+                    self.assign(tgt.elts[1], seq.fn(s, i, known_not_last=seq.drop_last > 0), s, fr)
+                return 0, seq.length(), bindl, iname
             if self.is_arr(seq):
                 if seq.rank != 1:
                     raise OutOfReach('enumerate over rank>1 array')
@@ -1150,7 +1249,9 @@ class Engine(Exec):
             elif v is None:
                 pass
             else:
-                raise OutOfReach('cannot havoc %s of type %s' % (n, type(v).__name__))
+                # structured value (list, view, ...) reassigned in the loop: unknown afterwards - unbound, so that any read
+                # before the next assignment is reported as out of reach instead of using a stale value
+                del st.env[n]
         seen = set()
         for a in arr_objs:
             if a.aid not in seen:
